@@ -884,12 +884,14 @@ class GSample(GateRef):
 class GSwitchOnNext(GateRef):
     """this crate's switch_on_next(target): mirror the source until the target emits its first item, the target from then on"""
     init = False
+    extra = ("set_flag",)        # the switch is published before the target's item goes out: a source item arriving while that
+                                 # item is being delivered (re-entrantly, or from another thread) is already muted
 
     def step(self, st, ev):
         if ev == "S.N":
             return (() if st else (("emit", "item"),)), st, False
         if ev == "T.N":
-            return (("emit", "item"),), True, False
+            return (("set_flag",), ("emit", "item")), True, False
         return {"S.E": ((("error",),), st, True), "T.E": ((("error",),), st, True),
                 "S.C": ((("complete",),), st, False), "T.C": ((("complete",),), st, True)}[ev]
 
